@@ -32,6 +32,21 @@ package bastion
 //@   ensures[C10.500] upd_err != nil && !isSentinel(upd_err) ==> rerr != nil
 //@   ensures[C10.cod] rerr == nil ==> sc == 200 || sc == 400 || sc == 403 || sc == 404 || sc == 409 || sc == 422 || sc == 500
 
+// readLine: the next "\n"-terminated line without its terminator and with nothing else stripped; an unterminated rest and a
+// line that does not fit the buffer are errors.  (Stated over the reader's remaining input rd_buf[b], like bufio's contracts.)
+//@ func readLine
+//@   returns (line, err)
+//@   opt borrowed=line
+//@   requires b != nil
+//@   modifies rd_buf
+//@   ensures[C11.rl,C10.rl] err == nil ==> !noNL(old(rd_buf[b])) && !lineLong(old(rd_buf[b])) && str(line) == lineOf(old(rd_buf[b])) && rd_buf == old(rd_buf)[b := restAfter(old(rd_buf[b]))]
+//@   ensures[C11.rl,C10.rl] !rd_err[b] && !noNL(old(rd_buf[b])) && !lineLong(old(rd_buf[b])) ==> err == nil
+//@   ensures[C11.rl,C10.rl] noNL(old(rd_buf[b])) || lineLong(old(rd_buf[b])) ==> err != nil
+//@   ensures[C11.rl] err == nil ==> len(rd_buf[b]) < len(old(rd_buf[b]))
+//@   ensures[C11.rl] forall q Ref :: q != b ==> rd_buf[q] == old(rd_buf)[q]
+//@   ensures[C11.rl] err != nil ==> !isSentinel(err) && line == nil
+//@   hint cut_nl(lineOf(rd_buf[b]))
+
 // parseBody. G_n, G_row, G_off, G_k, G_cp stand for an arbitrary well-formed request (old size, k proof hashes
 // held in (row, off), checkpoint bytes): clauses mentioning them hold for every such request.
 //@ func parseBody
@@ -61,9 +76,8 @@ package bastion
 //@   ensures[C11.z,C10.z] err != nil ==> size == 0 && proof == nil && cp == nil
 //@   ensures[C11.z,C10.z] err == nil ==> cp != nil
 //@   ensures[C11.w] err == nil ==> oldLineOK(lineOf(input))
-//@   ensures[C11.e] !hasLine(input) ==> err != nil
-//@   // a first line that does not fit the line buffer is refused, not read in pieces (the same holds for every proof line: the
-//@   // loop returns an error as soon as ReadLine flags a piece)
+//@   ensures[C11.e] noNL(input) ==> err != nil
+//@   // a first line that does not fit the line buffer is refused, not read in pieces (the same holds for every proof line)
 //@   ensures[C11.long] lineLong(input) ==> err != nil
 //@   // instances of the (assumed) facts about the encoding that the proof needs, at the current position
 //@   hint old_ok(G_n())
@@ -72,6 +86,8 @@ package bastion
 //@   hint#1 encRest_end(G_row(), G_off(), len(proof), G_k(), G_cp())
 //@   hint#1 b64_rt(str(G_row()[G_off() + len(proof)]))
 //@   hint#1 b64_len(str(G_row()[G_off() + len(proof)]))
+//@   hint#1 strip_id(b64enc(str(G_row()[G_off() + len(proof)])))
+//@   hint#1 strip_id(G_bad())
 //@   hint#1 line_1(b64enc(str(G_row()[G_off() + len(proof)])), encRest(G_row(), G_off(), len(proof) + 1, G_k(), G_cp()))
 //@   hint#1 line_0(G_cp())
 //@   hint line_1("old " ++ fmt_du(G_n()), encBad(G_row(), G_off(), 0, G_j(), G_bad(), G_tail()))
@@ -89,7 +105,7 @@ package bastion
 //@   invariant#1 truncated ==> len(proof) <= G_j() + 1 && (len(proof) <= G_j() ==> rd_buf[b] == encTr(G_row(), G_off(), len(proof), G_j(), G_part())) && (len(proof) == G_j() + 1 ==> rd_buf[b] == "")
 //@   invariant#1 wellFormed ==> size == G_n() && len(proof) <= G_k() && rd_buf[b] == encRest(G_row(), G_off(), len(proof), G_k(), G_cp())
 //@   invariant#1 wellFormed ==> (forall j int :: 0 <= j && j < len(proof) ==> str(proof[j]) == str(G_row()[G_off() + j]))
-//@   invariant#1[C11.w] oldLineOK(lineOf(input)) && hasLine(input)
+//@   invariant#1[C11.w] oldLineOK(lineOf(input)) && !noNL(input)
 //@   invariant#1 rd_err[b] == old(rd_err[refOf(r)])
 //@   decreases#1 len(rd_buf[b])
 
